@@ -175,6 +175,7 @@ class UnitW(Unit):
         PATTERNS = [
             ("rust_type.to_string().split(':').next_back()", "Option<&'static str>", False),
             ('self.rust_type == RustType::Ignore', 'bool', False),
+            ('operation_name.replace("*/", "* /").replace("/*", "/ *")', 'String', False),
             ('operation .output .as_ref() .map(|_| format!("{operation_name}OutputEnvelope"))', 'Option<String>', True),
             ('xmlns .iter() .map(|(k, v)| format!("\\"{k}\\" = \\"{v}\\"")) .collect::<Vec<String>>() .join(", ")', 'String', True),
             ('xmlns .iter() .map(|(k, v)| format!("\\"{k}\\" = {v:?}")) .collect::<Vec<String>>() .join(", ")', 'String', True),
